@@ -196,7 +196,7 @@ pub fn worker_main(args: &[String]) -> i32 {
         libc::setrlimit(libc::RLIMIT_AS, &lim);
     }
     // quiet panics from simulated processes (they are caught and judged)
-    std::panic::set_hook(Box::new(|_| {}));
+    crate::common::quiet_panics();
     let cur = Arc::new(AtomicU64::new(u64::MAX));
     let started = Arc::new(AtomicU64::new(0));
     {
@@ -254,7 +254,7 @@ pub fn one_main(args: &[String]) -> i32 {
     }
     let verbose = args.iter().any(|a| a == "-v");
     if !verbose {
-        std::panic::set_hook(Box::new(|_| {}));
+        crate::common::quiet_panics();
     }
     let mut agg = Agg { s: WorkerSummary::default(), exercised: Default::default(), states: vec![], perlog: None };
     let emit = get("--emit");
@@ -660,7 +660,7 @@ pub fn canon_main() -> i32 {
         let lim = libc::rlimit { rlim_cur: 2 << 30, rlim_max: 2 << 30 };
         libc::setrlimit(libc::RLIMIT_AS, &lim);
     }
-    std::panic::set_hook(Box::new(|_| {}));
+    crate::common::quiet_panics();
     if crate::engine_r::run_canonical_loop() {
         0
     } else {
@@ -669,7 +669,7 @@ pub fn canon_main() -> i32 {
 }
 
 pub fn shrink_main(inp: &str, outp: &str) -> i32 {
-    std::panic::set_hook(Box::new(|_| {}));
+    crate::common::quiet_panics();
     unsafe {
         let lim = libc::rlimit { rlim_cur: WORKER_AS_LIMIT, rlim_max: WORKER_AS_LIMIT };
         libc::setrlimit(libc::RLIMIT_AS, &lim);
@@ -758,7 +758,7 @@ pub fn replay_inner_main(path: &str, quiet: bool) -> i32 {
         libc::setrlimit(libc::RLIMIT_AS, &lim);
     }
     if quiet {
-        std::panic::set_hook(Box::new(|_| {}));
+        crate::common::quiet_panics();
     }
     let v: Value = match std::fs::read_to_string(path).map_err(|e| e.to_string()).and_then(|s| serde_json::from_str(&s).map_err(|e| e.to_string())) {
         Ok(v) => v,
